@@ -354,7 +354,10 @@ func schemaCmd(args []string) int {
 		// two-word keyword written as one word (SQLite would read that as a type name) — to be rejected
 		textMut := ""
 		if mutation != "no columns argument" && r.Chance(1, 10) {
-			switch r.Intn(3) {
+			switch r.Intn(4) {
+			case 3:
+				rendered += gen.Pick(r, []string{", zz integernot null", ", zz textprimary key", ", zz realunique", ", zz numberx"})
+				textMut = "type word run together with the next word"
 			case 0:
 				rendered += gen.Pick(r, []string{",", " ,", ", "})
 				textMut = "trailing comma"
